@@ -86,9 +86,12 @@ CallObs(o) ==
            ELSE Say(o.tid, "viol:CallOrderIndependent"))
 
 TInit == l = 1 /\ case = Blank /\ pc = "trace" /\ idx = << >> /\ left = {} /\ order = << >> /\ st = St0 /\ res = Ok(AnyV)
+\* The judgement is evaluated as the right-hand side of the assignment to l', i.e. by TLC's state-level
+\* evaluator: as a conjunct of the action, TLC would expand the quantifiers over the orders into nested
+\* continuations (24 orders x 7 checks overflow the Java stack).
+Judge(o) == IF o.mode = "raw" THEN RawObs(o) ELSE CallObs(o)
 TNext ==
     /\ l <= Len(Obs)
-    /\ (IF Obs[l].mode = "raw" THEN RawObs(Obs[l]) ELSE CallObs(Obs[l]))
-    /\ l' = l + 1
+    /\ l' = (IF Judge(Obs[l]) THEN l + 1 ELSE l + 1)
     /\ UNCHANGED vars
 =============================================================================
